@@ -255,7 +255,7 @@ int main(int argc, char **argv) {
 	unsigned mode = (unsigned) vh::argU64(argc, argv, 4, 0);
 	std::ios::sync_with_stdio(false);
 	std::cout << "# prop=C04 seed=" << seed << " ncases=" << ncases << " nsteps=" << nsteps << " mode=" << mode << "\n";
-	Rng master(seed * 0x9E3779B97F4A7C15ull + 0xC04);
+	Rng master(Rng(seed * 0x100000001B3ull + 0xC04).next()); // hashed: consecutive seeds give unrelated streams
 	for (uint64_t c = 0; c < ncases; c++) {
 		Rng r = master.fork();
 		std::ostringstream buf;
